@@ -36,7 +36,7 @@ Definition maprange_table : list (site * mr_class) := [
   (("internal/driver/cli.go", "parseFlags", "pprofCommands", 1), MRFill);         (* registers one flag per command *)
   (("internal/driver/commands.go", "usage", "pprofCommands", 1), MRSorted "strings");
   (("internal/driver/config.go", "completeConfig", "configFieldMap", 1), MROutOfScope);   (* readline completion *)
-  (("internal/driver/driver.go", "identifyNumLabelUnits", "ignoredUnits", 1), MRDiag);
+  (("internal/driver/driver.go", "identifyNumLabelUnits", "ignoredUnits", 1), MRSorted "strings");   (* keys sorted before the warnings are printed (fix 609811b, F40) *)
   (("internal/driver/driver_focus.go", "compileTagFilter", "s.Label", 1), MRSearch);
   (("internal/driver/driver_focus.go", "compileTagFilter", "s.NumLabel", 1), MRSearch);
   (("internal/driver/driver_focus.go", "compileTagFilter", "vals", 1), MRNotMap);
@@ -172,6 +172,7 @@ Definition sort_site_table : list ((string * string * string) * string) := [
   (("internal/driver/commands.go", "usage", "sort.Strings(commands)"), "strings");
   (("internal/driver/commands.go", "usage", "sort.Strings(radioStrings)"), "strings");
   (("internal/driver/commands.go", "usage", "sort.Strings(variables)"), "strings");
+  (("internal/driver/driver.go", "identifyNumLabelUnits", "sort.Strings(keys)"), "strings");   (* fix 609811b (F40) *)
   (("internal/driver/interactive.go", "printCurrentOptions", "sort.Strings(args)"), "strings");
   (("internal/driver/interactive.go", "printCurrentOptions", "sort.Strings(values)"), "strings");
   (("internal/graph/graph.go", "EdgeMap.Sort", "sort.Sort(el)"), "edgeList.Less");
